@@ -110,7 +110,21 @@ def check_tree(root: M.RawModel, *, complete: bool = True) -> list[tuple[str, st
         if isinstance(root, M.RawTokenModel):
             return errs
         return [('no-store', 'tree model without a token store')]
-    order = {id(t): i for i, t in enumerate(store)}
+    order: dict[int, int] = {}
+    for i, t in enumerate(store):
+        if id(t) in order:
+            errs.append(('token-twice-in-store', f'token {t!r} occurs at positions {order[id(t)]} and {i} of the store'))
+            return errs
+        order[id(t)] = i
+    for t in store:
+        try:
+            k = store.get_index(t)
+        except Exception as e:  # noqa
+            errs.append(('token-handle-stale', f'get_index({t!r}) raises {type(e).__name__}: {e}'))
+            return errs
+        if k != order[id(t)]:
+            errs.append(('token-handle-stale', f'token {t!r} at position {order[id(t)]} reports index {k}'))
+            return errs
     owned: dict[int, str] = {}
 
     def rec(node: M.RawModel, path: str) -> Optional[tuple[int, int]]:
